@@ -316,6 +316,11 @@ func runMaxMin(c *eng.Ctx, cc compCfg) {
 		if !(worst <= tol) {
 			c.Violate(sig+"|wrong-value", fmt.Sprintf("%+v: slot %d a=%g b=%g got %v, error 2^%.1f", cc, wi, a[wi], b[wi], out[wi], math.Log2(worst)), cc)
 		}
+		// "This method ensures that max.Scale = params.DefaultScale" (same sentence for Min)
+		def := x.params.DefaultScale()
+		c.Check(scaleClose(&res.Scale.Value, &def.Value, 100), sig+"|output-scale", func() string {
+			return fmt.Sprintf("%+v: output scale %v, documented params.DefaultScale = %v", cc, &res.Scale.Value, &def.Value)
+		})
 	}
 }
 
@@ -644,6 +649,25 @@ func runMod1(c *eng.Ctx, cc compCfg) {
 	// target scale moves the result by >= 2^-3
 	if !(worst <= math.Exp2(-20)) {
 		c.Violate(sig+"|wrong-value", fmt.Sprintf("%+v type=%d: slot %d x=%g got %v, error 2^%.1f", cc, evm.Mod1Type, wi, vals[wi], out[wi], math.Log2(worst)), cc)
+	}
+	// refusal: "cannot Evaluate: ct.Level() < Mod1Parameters.LevelQ" - an error, never a panic, for an input below LevelQ
+	low, lerr := x.encrypt(vals, evm.LevelQ-1, 0)
+	if lerr != nil {
+		return
+	}
+	var rerr error
+	panicked, pv := eng.Panics(func() {
+		_, rerr = mod1.NewEvaluator(x.eval, ckkspoly.NewEvaluator(x.params, x.eval), mp).EvaluateNew(low)
+	})
+	c.Eval(1)
+	c.Count("refusal_checks", 1)
+	switch {
+	case panicked:
+		c.Violate("C13|mod1.Evaluator.EvaluateNew|too-few-levels|panic", fmt.Sprintf("%+v: input at level %d < LevelQ = %d: %v", cc, low.Level(), evm.LevelQ, pv), cc)
+	case rerr == nil:
+		c.Violate("C13|mod1.Evaluator.EvaluateNew|too-few-levels|not-refused", fmt.Sprintf("%+v: input at level %d < LevelQ = %d evaluated without error", cc, low.Level(), evm.LevelQ), cc)
+	default:
+		c.Count("errors_observed", 1)
 	}
 }
 
